@@ -1,3 +1,4 @@
+import TabulaModel.Lemmas.HtmlGrid
 import TabulaModel.Lemmas.HtmlSrc
 import TabulaModel.Lemmas.HtmlDepth
 /-!
@@ -115,13 +116,42 @@ theorem nonEmpty_pad (k : Nat) : nonEmpty ((List.replicate k (⟨[], false, 1, 1
     rw [List.replicate_succ, List.map_cons]
     simp [nonEmpty] at ih ⊢
 
-theorem nonEmpty_padRows (n : Nat) (rows : List (List Cell)) :
-    nonEmpty ((rows.map (padRow n)).flatten.map (·.text)) = nonEmpty (rows.flatten.map (·.text)) := by
-  induction rows with
+theorem tableToMarkdown_nil : tableToMarkdown [] = [] := rfl
+
+/-- the texts of a grid line: the positions without a cell are empty cells -/
+theorem nonEmpty_gridLine (l : List (Option Cell)) :
+    nonEmpty ((l.map gridCell).map (·.text)) = nonEmpty ((l.filterMap id).map (·.text)) := by
+  induction l with
   | nil => rfl
-  | cons r rs ih =>
-    simp only [List.map_cons, List.flatten_cons, List.map_append, nonEmpty_append, ih, padRow]
-    rw [nonEmpty_pad]; simp
+  | cons o rest ih =>
+    cases o with
+    | none =>
+      simp only [List.map_cons, List.filterMap_cons, id, gridCell]
+      have : nonEmpty (([] : Str) :: (rest.map gridCell).map (·.text)) = nonEmpty ((rest.map gridCell).map (·.text)) := by
+        simp [nonEmpty]
+      rw [this, ih]
+    | some c =>
+      simp only [List.map_cons, List.filterMap_cons, id, gridCell]
+      have h1 : ∀ (x : Str) (xs : List Str), nonEmpty (x :: xs) = nonEmpty [x] ++ nonEmpty xs := by
+        intro x xs; simp [nonEmpty, List.filter_cons]; split <;> simp
+      rw [h1 c.text (List.map (fun x => x.text) (List.map gridCell rest)), ih,
+        ← h1 c.text (List.map (fun x => x.text) (List.filterMap id rest))]
+
+theorem nonEmpty_gridLines (g : List (List (Option Cell))) :
+    nonEmpty ((g.map (·.map gridCell)).flatten.map (·.text))
+      = nonEmpty ((g.map (·.filterMap id)).flatten.map (·.text)) := by
+  induction g with
+  | nil => rfl
+  | cons l ls ih =>
+    simp only [List.map_cons, List.flatten_cons, List.map_append, nonEmpty_append, ih, nonEmpty_gridLine]
+
+/-- the grid of a table carries the texts of its cells, in order, and empty cells besides -/
+theorem nonEmpty_tableGrid (rows : List (List Cell)) :
+    nonEmpty ((tableGrid rows).flatten.map (·.text)) = nonEmpty (rows.flatten.map (·.text)) := by
+  unfold tableGrid
+  rw [nonEmpty_gridLines]
+  unfold HtmlGrid.grid
+  rw [HtmlGrid.layoutGrid_cells]
 
 theorem items_texts (items : List Item) :
     (items.map fun i => (i.level, i.text)).map (·.2) = (items.map fun i => Atom.item i.level i.text).map Atom.text := by
@@ -149,7 +179,7 @@ theorem docElements_one (e : Element) :
     by_cases hr : rows = []
     · simp [hr, nonEmpty]
     · simp only [hr, if_false, List.flatMap_cons, List.flatMap_nil, List.append_nil, DocEl.texts]
-      rw [nonEmpty_padRows]
+      rw [nonEmpty_tableGrid]
       congr 1
       simp [Atom.text, List.map_map, Function.comp_def]
 
